@@ -53,14 +53,15 @@ def gradient_descent(
             disable=disable_progressbar,
         )
 
+    # Create the returns (before anything can be interrupted)
+    xs = []
+    ms = []
+    x = _numpy.nan
+
     try:
 
         # Compute initial misfit
         x = target.misfit(m)
-
-        # Create the returns
-        xs = []
-        ms = []
 
         # Add starting model and misfit to the returns
         xs.append(x)
@@ -107,6 +108,10 @@ def gradient_descent(
             xs.append(x)
             ms.append(m)
     except KeyboardInterrupt:
-        pass
+        # The step in progress was not completed (its model may not have been
+        # evaluated, or checked): return the last completed one
+        if len(xs) > 0:
+            x = xs[-1]
+            m = ms[-1]
 
     return m, x, _numpy.array(ms), _numpy.array(xs)
